@@ -6,6 +6,7 @@ import (
 	"fmt"
 	"os"
 	"regexp"
+	"runtime/debug"
 	"sort"
 	"strconv"
 	"strings"
@@ -439,6 +440,9 @@ func run(c Case) (fail *hx.Failure, st *stats) {
 				sig = sigLivelock
 			}
 			fail = hx.Failf(sig, "%s as %s never finishes: %s", v.req, who(v.id), v.msg)
+			if trace {
+				fmt.Fprintf(os.Stderr, "LIVELOCK avoid=%v %s\n", e.c.AvoidLive, fail.Msg)
+			}
 		case string:
 			if strings.Contains(v, livelockMarker) || e.guard.tripped.Load() {
 				fail = hx.Failf("C10/livelock/collection-api", "%s", v)
@@ -689,6 +693,7 @@ func (e *env) writeDoc(op Op, d *mdoc, by int, tw *twin) *hx.Failure {
 		}
 		return fmt.Sprintf(`mutation { update_%s(docID: %s, input: {%s}) { _docID } }`, name, gqlStr(id), in)
 	}
+	apiPanic := ""
 	api := func(id string) (ok bool, text string) {
 		e.guard.n.Store(0)
 		c := e.collection(e.real, col)
@@ -698,7 +703,20 @@ func (e *env) writeDoc(op Op, d *mdoc, by int, tw *twin) *hx.Failure {
 			hx.Harnessf("docID %s: %v", id, err)
 		}
 		if op.K == "delete" {
-			ok, err := c.Delete(ctx, did)
+			var ok bool
+			var err error
+			func() {
+				defer func() {
+					if p := recover(); p != nil {
+						st := string(debug.Stack())
+						apiPanic = fmt.Sprintf("panic: %v at %s", p, hx.PanicSite(st[strings.Index(st, "panic("):]))
+					}
+				}()
+				ok, err = c.Delete(ctx, did)
+			}()
+			if apiPanic != "" {
+				return false, apiPanic
+			}
 			return ok && err == nil, fmt.Sprintf("deleted=%v err=%v", ok, err)
 		}
 		// the regular flow is Get-Set-Update; a writer who cannot Get the document tries with a bare document of that id.
@@ -727,12 +745,22 @@ func (e *env) writeDoc(op Op, d *mdoc, by int, tw *twin) *hx.Failure {
 		}
 		return r.OK() && len(r.Rows(key)) == 1, strings.ReplaceAll(show(r), id, "<docID>")
 	}
+	indexed := col == 0 || e.c.RelIdx
 	do := gql
 	if op.Via == "api" {
 		do = api
+		if op.K == "delete" && class != "must" && indexed && e.avoid(sigDelPanic) {
+			do = gql
+		}
 	}
 	ok, text := do(d.id)
 	what := fmt.Sprintf("%s of %s by %s via %s", op.K, d, who(by), op.Via)
+	if apiPanic != "" {
+		if class != "must" && indexed && strings.Contains(apiPanic, "GetValue") {
+			return hx.Failf(sigDelPanic, "%s: Collection.Delete of a document the caller cannot fetch (hidden, deleted or missing) in a collection with a secondary index dereferences a nil document: %s", what, apiPanic)
+		}
+		return hx.Failf("C10/panic/collection-delete", "%s: %s", what, apiPanic)
+	}
 	switch class {
 	case "must":
 		if !ok {
@@ -982,6 +1010,8 @@ func (e *env) avoid(sig string) bool {
 		on = e.c.AvoidTT
 	case sigSubActive:
 		on = e.c.AvoidSub
+	case sigDelPanic:
+		on = e.c.AvoidDelPanic
 	}
 	return on && rec.IsKnown(sig)
 }
@@ -1022,6 +1052,13 @@ func (e *env) request(r int, rq Req, twp **twin) *hx.Failure {
 		}
 		e.hiddenMatters(r, q, b, "query")
 		if !same(a, b) {
+			if trace {
+				for _, dq := range []string{`query { Author { _docID k name age } }`, `query { Book { _docID k title rating author_id } }`, os.Getenv("C10_DEBUGQ")} {
+					if dq != "" {
+						fmt.Fprintf(os.Stderr, "DEBUG %s\n real: %s\n twin: %s\n full: %s\n", dq, show(e.execReal(r, dq)), show(exec(tw.n, r, dq)), show(exec(e.full, r, dq)))
+					}
+				}
+			}
 			return hx.Failf("C10/"+e.leakKind(r, a)+"/query", "%s\n real: %s\n twin: %s", q, show(a), show(b))
 		}
 		return nil
@@ -1053,7 +1090,10 @@ func (e *env) request(r int, rq Req, twp **twin) *hx.Failure {
 				args = append(args, fmt.Sprintf("docID: %s", gqlStr(id)))
 			}
 		}
-		if rq.Field != "" {
+		byCid := doc >= 0 && ver >= 0 && rq.K == "commits"
+		if rq.Field != "" && !byCid {
+			// never cid + fieldName: when the block at cid is not of that field, dagScanNode.Next recurses on the same
+			// cid without bound and the process dies with "fatal error: stack overflow" (on any node, ACP or not)
 			args = append(args, fmt.Sprintf("fieldName: %s", gqlStr(rq.Field)))
 		}
 		if rq.Depth > 0 && rq.K == "commits" {
